@@ -243,7 +243,8 @@ func (r *rewriter) rewriteStmt(s ast.Stmt) ast.Stmt {
 
 func (r *rewriter) rewriteSelect(sel *ast.SelectStmt) ast.Stmt {
 	hasDefault := false
-	var chans []ast.Expr
+	hasSend := false
+	var recvs []*ast.UnaryExpr
 	for _, c := range sel.Body.List {
 		cc := c.(*ast.CommClause)
 		r.rewriteStmtList(cc.Body)
@@ -259,29 +260,38 @@ func (r *rewriter) rewriteSelect(sel *ast.SelectStmt) ast.Stmt {
 			if len(cs.Rhs) == 1 {
 				recv, _ = isRecv(unparen(cs.Rhs[0]))
 			}
-		case *ast.SendStmt:
-			recv = nil
 		}
 		if recv == nil {
-			if !hasDefault {
-				// decided after the loop: need to know about default first
-				chans = append(chans, nil)
-			}
+			hasSend = true
 			continue
 		}
-		chans = append(chans, recv.X)
+		recvs = append(recvs, recv)
 	}
 	st.Selects++
 	r.changed, r.needRT = true, true
-	if hasDefault {
-		return &ast.BlockStmt{List: []ast.Stmt{&ast.ExprStmt{X: rtCall("SelectYield")}, sel}}
-	}
-	for _, c := range chans {
-		if c == nil {
+	if hasSend {
+		if !hasDefault {
 			fatal("%s: select with send case and no default at %s is not supported", r.file, r.fset.Position(sel.Pos()))
 		}
+		return &ast.BlockStmt{List: []ast.Stmt{&ast.ExprStmt{X: rtCall("SelectYield")}, sel}}
 	}
-	return &ast.BlockStmt{List: []ast.Stmt{&ast.ExprStmt{X: rtCall("WaitSelect", chans...)}, sel}}
+	// chosen := rt.WaitSelect(ch0, ch1, ...) / rt.PollSelect(...); every
+	// receive case is masked with rt.Only(chosen, i, ch_i), so that the case
+	// the simulator chose is the only one the native select can take.
+	var chans []ast.Expr
+	for _, rv := range recvs {
+		chans = append(chans, rv.X)
+	}
+	fn := "WaitSelect"
+	if hasDefault {
+		fn = "PollSelect"
+	}
+	selVar := ast.NewIdent("verifsimrt_sel")
+	assign := &ast.AssignStmt{Lhs: []ast.Expr{selVar}, Tok: token.DEFINE, Rhs: []ast.Expr{rtCall(fn, chans...)}}
+	for i, rv := range recvs {
+		rv.X = rtCall("Only", ast.NewIdent("verifsimrt_sel"), &ast.BasicLit{Kind: token.INT, Value: strconv.Itoa(i)}, rv.X)
+	}
+	return &ast.BlockStmt{List: []ast.Stmt{assign, sel}}
 }
 
 type renameRule struct {
